@@ -89,7 +89,25 @@ def rule_store_read_pure(ctx: RuleContext, p: Program, rid: str) -> None:
             continue
         n += 1
         bad = []
+        # objects created in this call (`pos = Position()`, a copy): writing their fields is not a write to store state
+        srcs: dict[str, list[ast.AST]] = {}
+        for a in walk_no_nested(f.node):
+            if isinstance(a, ast.Assign) and len(a.targets) == 1 and isinstance(a.targets[0], ast.Name):
+                srcs.setdefault(a.targets[0].id, []).append(a.value)
+        fresh = {nm for nm, vs in srcs.items() if all(
+            isinstance(v, ast.Call) and ((isinstance(v.func, ast.Name) and v.func.id[:1].isupper()) or norm(v.func) in ('copy.copy', 'copy.deepcopy'))
+            for v in vs)}
+
+        def on_fresh(t: ast.AST) -> bool:
+            while isinstance(t, ast.Attribute):
+                t = t.value
+            return isinstance(t, ast.Name) and t.id in fresh
+
         for x in walk_no_nested(f.node):
+            if isinstance(x, ast.AugAssign) and isinstance(x.target, ast.Attribute) and on_fresh(x.target):
+                continue
+            if isinstance(x, ast.Assign) and all(isinstance(t, ast.Name) or (isinstance(t, ast.Attribute) and on_fresh(t)) for t in x.targets):
+                continue
             if isinstance(x, ast.Delete) or (isinstance(x, ast.AugAssign) and not isinstance(x.target, ast.Name)):
                 bad.append(norm(x))
             if isinstance(x, ast.AugAssign) and isinstance(x.target, ast.Name):
